@@ -1,5 +1,6 @@
 import Zstd.Props.C01
 import Zstd.Proofs.FrameDecoderNoFault
+import Zstd.Proofs.BlockNoFault
 /-
 C03 — no input can make decoding panic, corrupt memory or hang.
 
@@ -155,5 +156,147 @@ theorem frame_loops_terminate (strat : Strategy) (a c f : Nat) (st : FState) (d 
 
 /-- non-vacuity: a sequence with offset value 4 on a buffer holding one byte executes without fault -/
 example : (executeSequences [⟨0, 3, 4⟩] [] (1, 4, 8) 0 { content := #[7] }).2.isOk = true := by decide
+
+/-! ## block level: `BlockDecoder::decompress_block` on the faithful model (`Zstd.Model.Blk`)
+
+`Blk.decompressBlock` mirrors `decompress_block`, `decode_literals`, `decode_sequences`,
+`maybe_update_fse_tables` and both sequence loops statement by statement (engine `blk`: compared with
+the real code block by block, also on blocks broken on purpose); every Rust panic site it can reach is a
+`Fault`, every `loop`/`while` takes fuel and running out of fuel is a `Fault` too.  The invariant is
+`Blk.WF` (`Proofs/BlockNoFault.lean`; FSE tables uninitialised or built, RLE symbols within the
+alphabets, Huffman table empty or built).  Helper lemmas: `Proofs/BlkFse*.lean` (FSE builders),
+`Proofs/BlkHuf*.lean` (Huffman table, literals streams, fuel), `Proofs/BlkSeq.lean` (sequence section),
+`Proofs/BlockNoFault.lean` (composition). -/
+
+open Zstd.Model.Blk Zstd.Proofs.BitIO in
+/-- **`decompress_block` never panics and never hangs**: for EVERY block content (any byte string),
+every well-formed entropy state and every decode buffer, the outcome is a value or an error, never a
+`Fault` (no index out of range, no `unwrap`/`assert!`/`unreachable!`/arithmetic overflow, no loop that
+runs out of fuel).  (`Bytes content`: the elements of the list are bytes.) -/
+theorem decompressBlock_no_fault {s : Blk.Scratch} (hwf : Blk.WF s) (content : List Nat) (hb : Bytes content)
+    (b : DBuf) (f : Fault) : (Blk.decompressBlock content s b).2 ≠ .fault f :=
+  (decompressBlock_spec hb hwf b).1 f
+
+open Zstd.Model.Blk Zstd.Proofs.BitIO in
+/-- a successful `decompress_block` leaves the entropy state well formed (so the next block of the
+frame can be decoded: Repeat modes, Treeless literals) -/
+theorem decompressBlock_keeps_WF {s : Blk.Scratch} (hwf : Blk.WF s) (content : List Nat) (hb : Bytes content)
+    (b : DBuf) : (Blk.decompressBlock content s b).2 = .ok → Blk.WF (Blk.decompressBlock content s b).1.1 :=
+  (decompressBlock_spec hb hwf b).2.1
+
+open Zstd.Model.Blk Zstd.Proofs.BitIO Zstd.Proofs.Blk in
+/-- what still holds after an ERROR: only a failed literals section can leave the Huffman table in a
+stale state, only a failed sequence section can leave an FSE table in a stale state; every other error
+(`literalsHeader`, `literalsTooLarge`, `malformedSection`, `seqHeader`, `exec _`) leaves the whole
+state well formed -/
+theorem decompressBlock_err_state {s : Blk.Scratch} (hwf : Blk.WF s) (content : List Nat) (hb : Bytes content)
+    (b : DBuf) (e : Blk.BlkErr) (he : (Blk.decompressBlock content s b).2 = .err e) :
+    (e ≠ .literals → HufWF (Blk.decompressBlock content s b).1.1.huf) ∧
+    (e ≠ .sequences → FseScratchWF (Blk.decompressBlock content s b).1.1.fse) :=
+  (decompressBlock_spec hb hwf b).2.2 e he
+
+/-- `DecoderScratch::new` is well formed -/
+theorem scratch_new_WF : Blk.WF {} := Blk.WF_new
+
+/-- whatever happened before — success, decode error, even a stale table — the three alphabets
+(`max_symbol`, written only by `FSETable::new`) are intact … -/
+theorem decompressBlock_keeps_alphabets (content : List Nat) (s : Blk.Scratch) (b : DBuf)
+    (h : Blk.Alphabets s) : Blk.Alphabets (Blk.decompressBlock content s b).1.1 :=
+  Blk.decompressBlock_alphabets content s b h
+
+/-- … and therefore **`reset` re-establishes `WF` from any state reachable from a fresh scratch**
+("after an error the same decoder can be reset and used again") -/
+theorem reset_reestablishes_WF {s : Blk.Scratch} (h : Blk.Alphabets s) : Blk.WF s.reset := Blk.WF_reset h
+
+open Zstd.Proofs.BitIO in
+/-- **a frame's blocks, decoded in order up to the first error, never fault** (termination of the
+chain is structural) -/
+theorem blockChain_no_fault (blocks : List (List Nat)) (hb : ∀ c ∈ blocks, Bytes c) {s : Blk.Scratch}
+    (hwf : Blk.WF s) (b : DBuf) (f : Fault) : (Blk.decodeBlocks blocks s b).2 ≠ .fault f :=
+  (Blk.decodeBlocks_spec blocks s b hb hwf).1 f
+
+open Zstd.Proofs.BitIO in
+/-- **every legal history on one scratch is fault free**: any number of frames, each started with
+`reset` and decoded block by block up to its first error (any byte strings as block contents, any
+window sizes), starting from a fresh scratch -/
+theorem legal_history_no_fault (frames : List (Nat × List (List Nat)))
+    (hb : ∀ fr ∈ frames, ∀ c ∈ fr.2, Bytes c) (b : DBuf) :
+    ∀ o ∈ Blk.runFrames frames {} b, ∀ f, o ≠ .fault f :=
+  Blk.runFrames_no_fault frames {} b hb Blk.WF_new.alphabets
+
+/-! ### the statement without the "stop at the first error" clause is FALSE
+
+`FSETable::build_decoder` stores the new `accuracy_log` before it has validated (or even read) the
+table description and returns early on an error, keeping the old `decode` vector
+(fse_decoder.rs:116-122, 228); `HuffmanTable::build_decoder` clears `decode`, and
+`build_table_from_weights` stores `max_num_bits` before rejecting it (huff0_decoder.rs:117-122,
+303-311).  `FrameDecoder::decode_blocks` does not poison the decoder after an `Err`, so a caller who
+ignores the error and calls `decode_blocks` again continues with the next block on the stale table:
+a Repeat-mode sequence section / a Treeless literals section then indexes the table out of range.
+Both witnesses were run through the real `FrameDecoder` (public API, frames
+`28b52ffd0000 240000 00018000 250000 0001c0ff` and `28b52ffd0000 2c0000 12800081bb 250000 134000ff`):
+first call `Err(..)`, second call panics at `fse_decoder.rs:37:39` ("index out of bounds: the len is 0
+but the index is 31") resp. `huff0_decoder.rs:26:26` ("the len is 0 but the index is 4064"); after
+`reset` the same decoder decodes a valid frame correctly.  Not a violation of C03 as worded (the
+continuation is not a legal call sequence), reported as an observation. -/
+
+/-- the unrestricted statement: any two blocks in a row on a fresh scratch, whatever the outcome of
+the first -/
+def decompressBlock_no_fault_any_history : Prop :=
+  ∀ (c1 c2 : List Nat), Zstd.Proofs.BitIO.Bytes c1 → Zstd.Proofs.BitIO.Bytes c2 → ∀ f,
+    (Blk.decompressBlock c2 (Blk.decompressBlock c1 {} {}).1.1 (Blk.decompressBlock c1 {} {}).1.2.1).2 ≠ .fault f
+
+def isIndexFault (o : Blk.BOut) (site : String) : Bool :=
+  match o with
+  | .fault (.index s) => s == site
+  | _ => false
+
+def isErr (o : Blk.BOut) : Bool :=
+  match o with
+  | .err _ => true
+  | _ => false
+
+/-- witness 1 (FSE): block 1 = no literals, 1 sequence, literal-length table FSE-compressed with a
+truncated description → `Err`, `accuracy_log = 5` with an empty table; block 2 = literal-length mode
+Repeat → `decode[new_state]` out of range in `init_state` -/
+theorem continue_after_error_faults_fse :
+    isErr (Blk.decompressBlock [0x00, 0x01, 0x80, 0x00] {} {}).2 = true ∧
+    isIndexFault (Blk.decompressBlock [0x00, 0x01, 0xC0, 0xFF]
+        (Blk.decompressBlock [0x00, 0x01, 0x80, 0x00] {} {}).1.1
+        (Blk.decompressBlock [0x00, 0x01, 0x80, 0x00] {} {}).1.2.1).2 "fse_decoder.rs:37:init_state" = true := by
+  decide +kernel
+
+/-- witness 2 (Huffman): block 1 = Compressed literals with direct weights `[11, 11]`
+(`max_num_bits = 12 > 11` → `Err` after `max_num_bits` was stored and `decode` cleared); block 2 =
+Treeless literals → `decode[state]` out of range -/
+theorem continue_after_error_faults_huf :
+    isErr (Blk.decompressBlock [0x12, 0x80, 0x00, 0x81, 0xBB] {} {}).2 = true ∧
+    isIndexFault (Blk.decompressBlock [0x13, 0x40, 0x00, 0xFF]
+        (Blk.decompressBlock [0x12, 0x80, 0x00, 0x81, 0xBB] {} {}).1.1
+        (Blk.decompressBlock [0x12, 0x80, 0x00, 0x81, 0xBB] {} {}).1.2.1).2 "huff0_decoder.rs:decode[state]" = true := by
+  decide +kernel
+
+theorem decompressBlock_no_fault_any_history_false : ¬ decompressBlock_no_fault_any_history := by
+  intro h
+  have h2 := continue_after_error_faults_fse.2
+  have := h [0x00, 0x01, 0x80, 0x00] [0x00, 0x01, 0xC0, 0xFF] (by intro x hx; simp at hx; omega) (by intro x hx; simp at hx; omega)
+  generalize (Blk.decompressBlock [0x00, 0x01, 0xC0, 0xFF] (Blk.decompressBlock [0x00, 0x01, 0x80, 0x00] {} {}).1.1
+        (Blk.decompressBlock [0x00, 0x01, 0x80, 0x00] {} {}).1.2.1).2 = o at h2 this
+  unfold isIndexFault at h2
+  split at h2
+  · exact this _ rfl
+  · cases h2
+
+def isOk (o : Blk.BOut) : Bool :=
+  match o with
+  | .ok => true
+  | _ => false
+
+/-- non-vacuity of the positive theorems: a fresh scratch is well formed, and a compressed block
+(4 raw literals `abcd`, one sequence in RLE modes: literal length 4, match length 3, offset 1) decodes
+successfully on it -/
+example : Blk.WF {} ∧ Zstd.Proofs.BitIO.Bytes [0x20, 0x61, 0x62, 0x63, 0x64, 0x01, 0x54, 0x04, 0x02, 0x00, 0x04] ∧
+    isOk (Blk.decompressBlock [0x20, 0x61, 0x62, 0x63, 0x64, 0x01, 0x54, 0x04, 0x02, 0x00, 0x04] {} {}).2 = true := by
+  refine ⟨Blk.WF_new, by intro x hx; simp at hx; omega, by decide +kernel⟩
 
 end Zstd.Props.C03
